@@ -158,11 +158,11 @@ the per-tuple contributions mod 2³², the plain sum without wrap; `tuple_order_
 `accumulate_sparse_pointwise` + `scaled_delta_exact` (the working buffer the per-tuple theorem starts
 from), `applied_coordinate_within_rounding` (sum of the per-tuple bounds + the final rounding), and
 `tuple_scalar_error_bound` for the exact tent scalars.  The composition is ONE theorem from the decoded
-tuples (scalar, explicit flags, deltas) to the output coordinate: `applied_outline_within_rounding`
-(x axis; y is the same with second components).  The step from the table bytes to the decoded tuples is
-`accumulate_sparse_buffer_eq_workOf` (list equality of the buffer after the fast path) together with
-`simple_glyph_closed_formula` (the model's fold is such a sum of `TupleContribution`s); instantiating
-`applyDecoded` from `simpleGlyph` tuple by tuple with these two is not written out as a further theorem. -/
+tuples (scalar, explicit flags, deltas) to the output coordinate: `applied_outline_within_rounding` (x)
+and `applied_outline_within_rounding_y` (y).  From the table BYTES: `simple_glyph_eq_applyDecoded_partial`
+and `simple_glyph_within_rounding_partial` (both axes) for glyph data whose active tuples all carry
+explicit point numbers (`SparseDecodes`, discharged per stream by `accumulate_sparse_buffer_eq_workOf`);
+all-points (dense) tuples are not composed — see the comment above `simple_glyph_within_rounding_partial`. -/
 /-- **`apply_deltas_eq_spec_one_contour` — one tuple, one contour (+ the four phantom points).**
 `points` = the `n` contour points then the phantom points (coordinates within `±M`); the tuple lists
 explicit deltas `ds` (zero where `has` is false, magnitudes within `Δ`) and is applied with the
@@ -573,6 +573,193 @@ theorem applied_outline_within_rounding (np : Nat) (points : List Iup.Pt) (ends 
       exact_mod_cast this
   rw [wrapI32_of_in hT.1 (by omega)]
   exact applied_coordinate_within_rounding terms hok (Iup.getP points k).1 hT
+
+/-- the y-axis twin of `applied_outline_within_rounding`: the same statement and proof with the second
+components (together they cover both coordinates of every point). -/
+theorem applied_outline_within_rounding_y (np : Nat) (points : List Iup.Pt) (ends : List Nat) (ts : List DTuple)
+    (hpl : points.length = np) (hwf : ContoursWF np 0 ends) (hne : ts ≠ [])
+    (M Δ : Int) (hM : 0 ≤ M ∧ M ≤ 16383) (hΔ : 0 ≤ Δ)
+    (hfit : 131072 * M + 4 * (Δ * 65536) + 65536 ≤ 2147483647)
+    (hpts : ∀ k, (-M ≤ (Iup.getP points k).1 ∧ (Iup.getP points k).1 ≤ M) ∧
+      (-M ≤ (Iup.getP points k).2 ∧ (Iup.getP points k).2 ≤ M))
+    (hts : ∀ t ∈ ts, t.has.length = np ∧ t.ds.length = np ∧ (0 < t.s ∧ t.s ≤ 65536) ∧
+      (∀ k, (-Δ ≤ (Iup.getP t.ds k).1 ∧ (Iup.getP t.ds k).1 ≤ Δ) ∧ (-Δ ≤ (Iup.getP t.ds k).2 ∧ (Iup.getP t.ds k).2 ≤ Δ)) ∧
+      (∀ k, t.has.getD k false = false → Iup.getP t.ds k = (0, 0)))
+    (c : Nat × Nat) (hc : c ∈ contoursOf 0 ends) (k : Nat) (hk1 : c.1 ≤ k) (hk2 : k ≤ c.2)
+    (hwrap : |(ts.map fun t => (t.s : ℚ) *
+          (((Iup.inferSpec (points.drop c.1) ((t.ds.drop c.1).take (c.2 - c.1 + 1)) (t.has.drop c.1) (k - c.1)).2.1 : ℚ) /
+            (Iup.inferSpec (points.drop c.1) ((t.ds.drop c.1).take (c.2 - c.1 + 1)) (t.has.drop c.1) (k - c.1)).2.2)).sum|
+        + (ts.map fun t =>
+          (((Iup.inferSpec (points.drop c.1) ((t.ds.drop c.1).take (c.2 - c.1 + 1)) (t.has.drop c.1) (k - c.1)).2.2 : ℚ) - 1) / 2).sum
+        < 2147450880) :
+    ∃ deltas, applyDecoded points ends ts = some deltas ∧
+      |(((Iup.getP points k).2 + Fixed.toI32 (deltas.getD k (0, 0)).2 : Int) : ℚ)
+        - (((Iup.getP points k).2 : ℚ) + (ts.map fun t => (t.s : ℚ) *
+          (((Iup.inferSpec (points.drop c.1) ((t.ds.drop c.1).take (c.2 - c.1 + 1)) (t.has.drop c.1) (k - c.1)).2.1 : ℚ) /
+            (Iup.inferSpec (points.drop c.1) ((t.ds.drop c.1).take (c.2 - c.1 + 1)) (t.has.drop c.1) (k - c.1)).2.2)).sum / 65536)|
+      ≤ 1 / 2 + (ts.map fun t =>
+          (((Iup.inferSpec (points.drop c.1) ((t.ds.drop c.1).take (c.2 - c.1 + 1)) (t.has.drop c.1) (k - c.1)).2.2 : ℚ) - 1) / 2).sum / 65536 := by
+  -- the point lies inside the glyph
+  have hcw := ContoursAll_mem ends 0 (ContoursWF_all np ends 0 hwf) c hc
+  have hknp : k < np := by omega
+  -- per tuple: `interpolate_deltas` succeeds and the contribution is near the specification
+  have hper : ∀ t ∈ ts, ∃ out, Iup.readerInterpolate points t.has ends (t.work points) = some out ∧
+      Term.Ok ⟨(Iup.getP out k).2 - (Iup.getP points k).2 * 65536, t.s,
+        (Iup.inferSpec (points.drop c.1) ((t.ds.drop c.1).take (c.2 - c.1 + 1)) (t.has.drop c.1) (k - c.1)).2.1,
+        (Iup.inferSpec (points.drop c.1) ((t.ds.drop c.1).take (c.2 - c.1 + 1)) (t.has.drop c.1) (k - c.1)).2.2⟩ := by
+    intro t ht
+    obtain ⟨h1, h2, h3, h4, h5⟩ := hts t ht
+    obtain ⟨out, e, _, hall, _⟩ := apply_deltas_eq_spec np points t.ds t.has t.s ends hpl h1 h2 hwf M Δ hM hΔ h3 hfit
+      hpts h4 h5
+    have := ContoursAll_mem ends 0 hall c hc k hk1 hk2
+    simp only [] at this
+    obtain ⟨_, a2, _, _, a5, a6, _⟩ := this
+    exact ⟨out, e, a2, a5, a6⟩
+  -- the contributions
+  let f : DTuple → List Iup.Pt := fun t =>
+    (List.range points.length).map fun j => ptSub ((outOf points ends t).getD j (0, 0)) (ptFromI32 (points.getD j (0, 0)))
+  have hdec : ∀ t ∈ ts, decodedContribution points ends t = some (f t) := by
+    intro t ht
+    obtain ⟨out, e, _⟩ := hper t ht
+    simp only [decodedContribution, f, outOf, e, Option.map_some, Option.getD_some]
+  have hfold : applyDecoded points ends ts = _ :=
+    applyDecoded_fold points ends f ts ((List.range points.length).map fun _ => ((0 : Int), (0 : Int))) hdec
+  have hmapne : ts.map f ≠ [] := by simpa using hne
+  refine ⟨_, hfold, ?_⟩
+  have hcl := accumulate_closed (ts.map f) points.length k (by omega) hmapne
+  rw [hcl]
+  simp only []
+  -- the column: wrapped per-tuple differences
+  have hp : Iup.fxFromI32 (Iup.getP points k).2 = (Iup.getP points k).2 * 65536 := by
+    obtain ⟨_, ⟨b1, b2⟩⟩ := hpts k
+    unfold Iup.fxFromI32; exact wrapI32_of_in (by omega) (by omega)
+  have hcol : colY (ts.map f) k = ((ts.map fun t => ((Iup.getP (outOf points ends t) k).2 - (Iup.getP points k).2 * 65536)).map wrapI32).sum := by
+    unfold colY
+    rw [List.map_map, List.map_map]
+    congr 1
+    apply List.map_congr_left
+    intro t _
+    simp only [Function.comp, f]
+    rw [List.getD_eq_getElem?_getD, List.getElem?_map, List.getElem?_range (by omega)]
+    simp only [Option.map_some, Option.getD_some, ptSub, ptFromI32, Iup.fxSub]
+    have : Fixed.fromI32 (points.getD k (0, 0)).2 = (Iup.getP points k).2 * 65536 := by rw [← fxFromI32_eq]; exact hp
+    rw [this]; rfl
+  rw [hcol, wrap_sum_wrap]
+  -- the terms
+  let terms : List Term := ts.map fun t =>
+    ⟨(Iup.getP (outOf points ends t) k).2 - (Iup.getP points k).2 * 65536, t.s,
+      (Iup.inferSpec (points.drop c.1) ((t.ds.drop c.1).take (c.2 - c.1 + 1)) (t.has.drop c.1) (k - c.1)).2.1,
+      (Iup.inferSpec (points.drop c.1) ((t.ds.drop c.1).take (c.2 - c.1 + 1)) (t.has.drop c.1) (k - c.1)).2.2⟩
+  have hok : ∀ x ∈ terms, x.Ok := by
+    intro x hx
+    obtain ⟨t, ht, rfl⟩ := List.mem_map.mp hx
+    obtain ⟨out, e, ok⟩ := hper t ht
+    have : outOf points ends t = out := by simp [outOf, e]
+    rw [this]; exact ok
+  have e1 : (ts.map fun t => ((Iup.getP (outOf points ends t) k).2 - (Iup.getP points k).2 * 65536)) = terms.map (·.δ) := by
+    simp only [terms, List.map_map]; rfl
+  have e2 : (ts.map fun t => (t.s : ℚ) *
+          (((Iup.inferSpec (points.drop c.1) ((t.ds.drop c.1).take (c.2 - c.1 + 1)) (t.has.drop c.1) (k - c.1)).2.1 : ℚ) /
+            (Iup.inferSpec (points.drop c.1) ((t.ds.drop c.1).take (c.2 - c.1 + 1)) (t.has.drop c.1) (k - c.1)).2.2))
+      = terms.map fun t => (t.s : ℚ) * ((t.num : ℚ) / t.den) := by
+    simp only [terms, List.map_map]; rfl
+  have e3 : (ts.map fun t =>
+          (((Iup.inferSpec (points.drop c.1) ((t.ds.drop c.1).take (c.2 - c.1 + 1)) (t.has.drop c.1) (k - c.1)).2.2 : ℚ) - 1) / 2)
+      = terms.map fun t => ((t.den : ℚ) - 1) / 2 := by
+    simp only [terms, List.map_map]; rfl
+  rw [e1]
+  rw [e2, e3] at hwrap ⊢
+  -- nothing wraps
+  have hsum := sum_near_rat terms hok
+  have hT : -2147483648 ≤ (terms.map (·.δ)).sum ∧ (terms.map (·.δ)).sum < 2147450880 := by
+    obtain ⟨g1, g2⟩ := abs_le.mp hsum
+    have g3 := le_abs_self ((terms.map fun t => (t.s : ℚ) * ((t.num : ℚ) / t.den)).sum)
+    have g4 := neg_abs_le ((terms.map fun t => (t.s : ℚ) * ((t.num : ℚ) / t.den)).sum)
+    constructor
+    · have : (-2147483648 : ℚ) ≤ ((terms.map (·.δ)).sum : Int) := by linarith
+      exact_mod_cast this
+    · have : (((terms.map (·.δ)).sum : Int) : ℚ) < 2147450880 := by linarith
+      exact_mod_cast this
+  rw [wrapI32_of_in hT.1 (by omega)]
+  exact applied_coordinate_within_rounding terms hok (Iup.getP points k).2 hT
+
+/-- **bytes → decoded tuples** (tuples with explicit point numbers): if every active tuple of the
+decoded glyph data `g` is a sparse tuple that `SparseDecodes` to the decoded tuple next to it in `dts`
+(same scalar; `accumulate_sparse_deltas` leaves `dt.work` / `dt.has` — discharged for a concrete
+stream by `accumulate_sparse_buffer_eq_workOf`), then skrifa's `simple_glyph` on the BYTES is
+`applyDecoded` on the decoded tuples: same success, same deltas. -/
+theorem simple_glyph_eq_applyDecoded_partial (ax : Nat) (shared : List (List Int)) (bytes : List Nat)
+    (coords : List Int) (points : List Iup.Pt) (ends : List Nat) (g : GlyphRead) (dts : List DTuple)
+    (hr : readGlyph ax bytes = some g) (h4 : 4 ≤ points.length)
+    (hlen : (activeTuples ax shared g coords).length = dts.length)
+    (hdec : ∀ p ∈ (activeTuples ax shared g coords).zip dts, SparseDecodes points g.sharedPts p.1 p.2) :
+    simpleGlyph ax shared (some bytes) coords points ends = applyDecoded points ends dts := by
+  unfold simpleGlyph applyDecoded
+  have : ¬ points.length < 4 := by omega
+  simp only [this, if_false, hr]
+  have hzero : (points.map fun _ => ((0 : Int), (0 : Int))) = (List.range points.length).map fun _ => ((0 : Int), (0 : Int)) := by
+    apply List.ext_getElem (by simp)
+    intro i h1 h2; simp
+  rw [hzero]
+  exact fold_sparse_eq_decoded points ends g.sharedPts _ dts _ hlen (by simp) hdec
+
+/- FULL STATEMENT `simple_glyph_within_rounding`: for every glyph-variation-data byte string the decoder
+accepts, every location, point and axis, the bound holds for what `simple_glyph` returns.  PROVED below
+for glyph data whose active tuples all carry explicit point numbers and decode (`SparseDecodes`) to
+well-formed decoded tuples.  MISSING: active tuples that cover all points (`accumulate_dense_deltas`):
+their contribution `fxScaled s d` equals the decoded contribution of the all-explicit `DTuple`
+(`apply_deltas_eq_spec`: explicit points get `s·d` exactly), which is not composed here; and the
+derivation of `SparseDecodes` from the packed streams themselves (`sparse_fast_path_eq_iterator` +
+`accumulate_sparse_buffer_eq_workOf` give it for streams of valid runs with distinct in-range points). -/
+/-- **`simple_glyph_within_rounding_partial`** — from the glyph-variation-data BYTES to both output
+coordinates of every contour point. -/
+theorem simple_glyph_within_rounding_partial (ax : Nat) (shared : List (List Int)) (bytes : List Nat)
+    (coords : List Int) (g : GlyphRead) (hr : readGlyph ax bytes = some g)
+    (np : Nat) (points : List Iup.Pt) (ends : List Nat) (ts : List DTuple)
+    (hpl : points.length = np) (hwf : ContoursWF np 0 ends) (hne : ts ≠ [])
+    (M Δ : Int) (hM : 0 ≤ M ∧ M ≤ 16383) (hΔ : 0 ≤ Δ)
+    (hfit : 131072 * M + 4 * (Δ * 65536) + 65536 ≤ 2147483647)
+    (hpts : ∀ k, (-M ≤ (Iup.getP points k).1 ∧ (Iup.getP points k).1 ≤ M) ∧
+      (-M ≤ (Iup.getP points k).2 ∧ (Iup.getP points k).2 ≤ M))
+    (hts : ∀ t ∈ ts, t.has.length = np ∧ t.ds.length = np ∧ (0 < t.s ∧ t.s ≤ 65536) ∧
+      (∀ k, (-Δ ≤ (Iup.getP t.ds k).1 ∧ (Iup.getP t.ds k).1 ≤ Δ) ∧ (-Δ ≤ (Iup.getP t.ds k).2 ∧ (Iup.getP t.ds k).2 ≤ Δ)) ∧
+      (∀ k, t.has.getD k false = false → Iup.getP t.ds k = (0, 0)))
+    (c : Nat × Nat) (hc : c ∈ contoursOf 0 ends) (k : Nat) (hk1 : c.1 ≤ k) (hk2 : k ≤ c.2)
+    (h4 : 4 ≤ points.length)
+    (hlen : (activeTuples ax shared g coords).length = ts.length)
+    (hdec : ∀ p ∈ (activeTuples ax shared g coords).zip ts, SparseDecodes points g.sharedPts p.1 p.2)
+    (hwrap : |(ts.map fun t => (t.s : ℚ) *
+          (((Iup.inferSpec (points.drop c.1) ((t.ds.drop c.1).take (c.2 - c.1 + 1)) (t.has.drop c.1) (k - c.1)).1.1 : ℚ) /
+            (Iup.inferSpec (points.drop c.1) ((t.ds.drop c.1).take (c.2 - c.1 + 1)) (t.has.drop c.1) (k - c.1)).1.2)).sum|
+        + (ts.map fun t =>
+          (((Iup.inferSpec (points.drop c.1) ((t.ds.drop c.1).take (c.2 - c.1 + 1)) (t.has.drop c.1) (k - c.1)).1.2 : ℚ) - 1) / 2).sum
+        < 2147450880)
+    (hwrapy : |(ts.map fun t => (t.s : ℚ) *
+          (((Iup.inferSpec (points.drop c.1) ((t.ds.drop c.1).take (c.2 - c.1 + 1)) (t.has.drop c.1) (k - c.1)).2.1 : ℚ) /
+            (Iup.inferSpec (points.drop c.1) ((t.ds.drop c.1).take (c.2 - c.1 + 1)) (t.has.drop c.1) (k - c.1)).2.2)).sum|
+        + (ts.map fun t =>
+          (((Iup.inferSpec (points.drop c.1) ((t.ds.drop c.1).take (c.2 - c.1 + 1)) (t.has.drop c.1) (k - c.1)).2.2 : ℚ) - 1) / 2).sum
+        < 2147450880) :
+    ∃ deltas, simpleGlyph ax shared (some bytes) coords points ends = some deltas ∧
+      |(((Iup.getP points k).1 + Fixed.toI32 (deltas.getD k (0, 0)).1 : Int) : ℚ)
+        - (((Iup.getP points k).1 : ℚ) + (ts.map fun t => (t.s : ℚ) *
+          (((Iup.inferSpec (points.drop c.1) ((t.ds.drop c.1).take (c.2 - c.1 + 1)) (t.has.drop c.1) (k - c.1)).1.1 : ℚ) /
+            (Iup.inferSpec (points.drop c.1) ((t.ds.drop c.1).take (c.2 - c.1 + 1)) (t.has.drop c.1) (k - c.1)).1.2)).sum / 65536)|
+      ≤ 1 / 2 + (ts.map fun t =>
+          (((Iup.inferSpec (points.drop c.1) ((t.ds.drop c.1).take (c.2 - c.1 + 1)) (t.has.drop c.1) (k - c.1)).1.2 : ℚ) - 1) / 2).sum / 65536 ∧
+      |(((Iup.getP points k).2 + Fixed.toI32 (deltas.getD k (0, 0)).2 : Int) : ℚ)
+        - (((Iup.getP points k).2 : ℚ) + (ts.map fun t => (t.s : ℚ) *
+          (((Iup.inferSpec (points.drop c.1) ((t.ds.drop c.1).take (c.2 - c.1 + 1)) (t.has.drop c.1) (k - c.1)).2.1 : ℚ) /
+            (Iup.inferSpec (points.drop c.1) ((t.ds.drop c.1).take (c.2 - c.1 + 1)) (t.has.drop c.1) (k - c.1)).2.2)).sum / 65536)|
+      ≤ 1 / 2 + (ts.map fun t =>
+          (((Iup.inferSpec (points.drop c.1) ((t.ds.drop c.1).take (c.2 - c.1 + 1)) (t.has.drop c.1) (k - c.1)).2.2 : ℚ) - 1) / 2).sum / 65536 := by
+  rw [simple_glyph_eq_applyDecoded_partial ax shared bytes coords points ends g ts hr h4 hlen hdec]
+  obtain ⟨d1, e1, b1⟩ := applied_outline_within_rounding np points ends ts hpl hwf hne M Δ hM hΔ hfit hpts hts c hc k hk1 hk2 hwrap
+  obtain ⟨d2, e2, b2⟩ := applied_outline_within_rounding_y np points ends ts hpl hwf hne M Δ hM hΔ hfit hpts hts c hc k hk1 hk2 hwrapy
+  rw [e1] at e2
+  injection e2 with e2
+  subst e2
+  exact ⟨d1, e1, b1, b2⟩
 
 /-- **the glue between the byte-level fast path and the decoded tuples**: with the calls of the two
 passes as in `sparse_fast_path_eq_iterator` (`pts.zip xs`, `pts.zip ys`, distinct points), values
